@@ -467,6 +467,32 @@ func TestDrv_C18(t *testing.T) {
 		tr.Emit("Reset", KV{"mode": "refresh", "sequential": true, "resolved": []KV{}, "mapped": []string{}, "passthru": false, "half": 0})
 		tr.Emit("Refresh", KV{"running_during_attack": during, "running_after_stop": after, "queries_during_attack": q1 - q0})
 	}
+	// the same option stacks over a transport the caller built without a dial function of its own (the options then dial with the
+	// Attacker's dialer): nothing is recorded here - the mapped destination is a closed loopback port, every hit fails - the
+	// run is for the race detector ("for every combination of attacker options ... no data race in the dial path")
+	for _, order := range []string{"dns", "connect", "dns+connect", "connect+dns"} {
+		opts := []func(*vegeta.Attacker){vegeta.Client(&http.Client{Transport: &http.Transport{DisableKeepAlives: true}}), vegeta.Workers(16), vegeta.MaxWorkers(16),
+			vegeta.Timeout(2 * time.Second)}
+		cmap := map[string][]string{"blind.invalid:8080": {"127.0.0.1:1", "127.0.0.1:2"}}
+		switch order {
+		case "dns":
+			opts = append(opts, vegeta.DNSCaching(0))
+		case "connect":
+			opts = append(opts, vegeta.ConnectTo(cmap))
+		case "dns+connect":
+			opts = append(opts, vegeta.DNSCaching(0), vegeta.ConnectTo(cmap))
+		case "connect+dns":
+			opts = append(opts, vegeta.ConnectTo(cmap), vegeta.DNSCaching(0))
+		}
+		atk := vegeta.NewAttacker(opts...)
+		url := "http://blind.invalid:8080/"
+		if order == "dns" {
+			url = "http://127.0.0.1:1/"
+		}
+		for range atk.Attack(vegeta.NewStaticTargeter(vegeta.Target{Method: "GET", URL: url}), &countPacer{n: 200}, 0, "blind") {
+		}
+		runs++
+	}
 	dnsMu.Lock()
 	q := dnsQueries
 	dnsMu.Unlock()
